@@ -160,9 +160,21 @@ def run(chk):
         ev.append(("owner after uid update", (st2.st_uid, st2.st_gid) if st2 else None))
         if st2 and (st2.st_uid, st2.st_gid) != (1500, 2345):
             chk.fail("c17:uid-update-not-immediate", "after update-user UserID=1500 the next object is owned by %d:%d" % (st2.st_uid, st2.st_gid), {"events": ev})
+        # the account (admin role) rotates its own secret: the request that made the change was the last one verified, and it
+        # was verified for this very account under the old secret
+        me = s3c.Client(g.port, "ua", "sa2")
+        r = me.req("PATCH", "/update-user", query={"access": "ua"}, body=b"<MutableProps><Secret>sa3</Secret></MutableProps>")
+        old = me.req("GET", "/bk1/owned-by-ua")
+        new = s3c.Client(g.port, "ua", "sa3").req("GET", "/bk1/owned-by-ua")
+        ev += [("update-user by the account itself", r.status), ("GET with old secret", old.status), ("GET with new secret", new.status)]
+        chk.case(("history", "self-rotation"), True); chk.traces += 1
+        if r.status == 200 and (old.status == 200 or new.status != 200):
+            chk.fail("c17:self-secret-change-not-immediate", "after an account changed its own secret: old secret %d, new secret %d" % (old.status, new.status), {"events": ev})
+        if r.status != 200:
+            root.req("PATCH", "/update-user", query={"access": "ua"}, body=b"<MutableProps><Secret>sa3</Secret></MutableProps>")
         # delete: rejected at once, also through a second gateway process sharing the IAM directory after its cache entry expires
         r = root.req("PATCH", "/delete-user", query={"access": "ua"})
-        gone = s3c.Client(g.port, "ua", "sa2").req("GET", "/bk1/owned-by-ua")
+        gone = s3c.Client(g.port, "ua", "sa3").req("GET", "/bk1/owned-by-ua")
         ev += [("delete-user", r.status), ("GET by the deleted account", gone.status, gone.code)]
         if r.status == 200 and gone.status == 200:
             chk.fail("c17:deleted-account-still-works", "a deleted account is still served: %s" % ev, {"events": ev})
